@@ -93,7 +93,9 @@ class Sim:
         self._stamp_all()
         kernel.reset_rope_globals()
         self.fs = simfs.SimFS(self.root, self.clock, stamp=True)
-        self.prefs = {"automatic_soa": False}
+        # SOA-on variant: static object analysis runs on every write through rope and fills the
+        # object-info store; answers that depend on that store are already left out of the battery
+        self.prefs = {"automatic_soa": bool(swarm.get("soa", False))}
         self.W = Project(self.root, fscommands=self.fs, ropefolder=None, **self.prefs)
         self.sq = _patch_autoimport()
         self.use_autoimport = swarm.get("autoimport", True)
@@ -730,6 +732,7 @@ class CoherenceEngine(Engine):
             "check_every": rng.choice([1, 2, 4]),
             "faults": rng.choice([[None], [None, "back"], [None, "coarse1", "coarse2"], [None, "back", "coarse1", "same"]]),
             "burst": rng.random() < 0.4,
+            "soa": rng.random() < 0.3,
         }
 
     def gen_step(self, rng, sim, swarm):
